@@ -107,3 +107,27 @@ Proof.
   exists k. exact R.
 Qed.
 Print Assumptions C09_statement_is_balanced_file_mode.
+
+(* a definition f = (ps) -> body leaves no residue on the stacks: the operand stack, the frame stack and the
+   closure stack are where they were, no context is added; what it leaves is the function's entry in the
+   frame table *)
+Require Import Calc.StmtDef.
+Theorem C09_definition_is_balanced : forall f ps body lc s s' v c m fuel,
+  LExprSem.lpure (repeat VNil (List.length ps)) body = true -> lc = Z.of_nat (List.length ps) ->
+  wfcs s -> idle v s c m -> m_fp m = [] -> ncs s + 1 < 4294967296 ->
+  ByteCode (NAssign (NName f) (NFunction ps body lc)) s = CompOk s' ->
+  (4 < fuel)%nat ->
+  exists v' c' m' fv, Run fuel (load_code v s') true = (v', RValue fv) /\
+    assoc_get (v_mems v') (c_mid c) = Some m' /\ m_sp m' = m_sp m /\ m_fp m' = m_fp m /\ m_clos m' = m_clos m /\
+    assoc_get (v_ctxs v') 0 = Some c' /\ c_ip c' = ncs s' /\ c_children c' = c_children c /\
+    v_frames v' = (v_next v, FNone) :: v_frames v.
+Proof.
+  intros f ps body lc s s' v c m fuel Hp Hlc Hwf Hid Hfp Hbig HB Hf.
+  destruct (bytecode_run_def f ps body lc s s' v c m fuel Hp Hlc Hwf Hid Hfp Hbig HB Hf)
+    as [_ [v' [c' [m' (R & Hid' & Hmid & Hch & Hsp & Hms & _ & Hfr & _)]]]].
+  exists v', c', m'. eexists. split; [exact R|]. destruct Hid' as [I1 I2 I3 I4]. rewrite Hmid in I3.
+  destruct Hms as (F & C & _).
+  split; [exact I3|]. split; [exact Hsp|]. split; [exact F|]. split; [exact C|]. split; [exact I1|]. split; [exact I2|].
+  split; [exact Hch|exact Hfr].
+Qed.
+Print Assumptions C09_definition_is_balanced.
